@@ -5,6 +5,7 @@
 use litep2p::verif::VerifBox;
 
 mod c18ref;
+mod c03ref;
 
 pub fn new_box(area: &str) -> Option<Box<dyn VerifBox>> {
     match area {
@@ -15,6 +16,8 @@ pub fn new_box(area: &str) -> Option<Box<dyn VerifBox>> {
             litep2p: litep2p::verif::new_box("c18")?,
             reference: c18ref::RefBox,
         })),
+        // litep2p adapter; `refneg` runs litep2p against `multistream-select` 0.13.0
+        "c03" => Some(Box::new(c03ref::RefNeg { litep2p: litep2p::verif::new_box("c03")? })),
         _ => None,
     }
 }
